@@ -5,8 +5,8 @@ N in 0..=4 (and out-of-range indices for remove / swap_remove), checking the dro
 import os, re, shutil
 from common import *
 
-STANDIN_PROPS = ('C04', 'C05', 'C09', 'C16')
-BOUND = 'N in 0..=4; every call index 0..=N of each closure/Clone/next; every single panicking element x every (front, back) iterator position x skip counts {0,1,2,N,usize::MAX}; idx in {N, N+1, usize::MAX} for remove/swap_remove'
+STANDIN_PROPS = ('C04', 'C05', 'C09', 'C15', 'C16')
+BOUND = 'C15: 4 MiB of u8 on a 256 KiB-stack thread, seven boxed constructors / conversions; otherwise N in 0..=4; every call index 0..=N of each closure/Clone/next; every single panicking element x every (front, back) iterator position x skip counts {0,1,2,N,usize::MAX}; idx in {N, N+1, usize::MAX} for remove/swap_remove'
 
 
 def run_standin(prop):
